@@ -3,7 +3,9 @@ use crate::common::*;
 use crate::models::*;
 use nalgebra::{DMatrix, DVector};
 
-pub const NAMES: [&str; 6] = ["alpha", "beta", "gamma", "delta", "eps", "zeta"];
+pub const NAMES: [&str; 12] = [
+    "alpha", "beta", "gamma", "delta", "eps", "zeta", "eta", "theta", "iota", "kappa", "lambda", "mu",
+];
 
 #[derive(Clone, Debug)]
 pub struct GenOpts {
@@ -14,6 +16,21 @@ pub struct GenOpts {
     /// allow a duplicated basis function (rank deficient)
     pub allow_dup: bool,
     pub smooth_only: bool,
+    /// exact number of samples (size-threshold sub-streams); `None` = random in [M+1, max_n]
+    pub fixed_n: Option<usize>,
+}
+
+/// sizes around the block widths a tiled / vectorised implementation would plausibly use: a
+/// regression that only shows beyond a size threshold (or for sizes that are not a multiple of a
+/// block width) needs such shapes to manifest
+pub const BIG_SIZES: [usize; 18] = [15, 16, 17, 31, 32, 33, 34, 40, 63, 64, 65, 70, 96, 100, 127, 128, 129, 150];
+pub const BIG_SIZES_THOROUGH: [usize; 6] = [255, 256, 257, 300, 511, 513];
+pub fn big_size(rng: &mut Rng, thorough: bool) -> usize {
+    if thorough && rng.chance(0.25) {
+        *rng.pick(&BIG_SIZES_THOROUGH)
+    } else {
+        *rng.pick(&BIG_SIZES)
+    }
 }
 
 /// all model parameters live in this range (valid for every kernel argument)
@@ -90,6 +107,10 @@ pub fn random_recipe(rng: &mut Rng, o: &GenOpts) -> Recipe {
         let mmin = fns.len() + 1;
         let n = rng.range(mmin.min(o.max_n), o.max_n);
         let n = n.max(fns.len());
+        let n = match o.fixed_n {
+            Some(k) => k.max(mmin),
+            None => n,
+        };
         let mut x: Vec<f64> = (0..n)
             .map(|i| 0.25 + 3.5 * (i as f64) / (n.max(2) - 1) as f64)
             .collect();
